@@ -754,6 +754,26 @@ class DataOps:
 
 
 # ------------------------------------------------------------------------------------------------ producers (C12)
+def _prec(n, salt):
+    """a precision matrix as np.linalg.inv leaves it: symmetric only up to round-off"""
+    from .kernel import H
+    m = np.array([[(H('prec', salt, i, j) % 17) / 16.0 for j in range(n)] for i in range(n)])
+    return np.linalg.inv(m @ m.T + n * np.eye(n))
+
+
+def _argfp(x):
+    """bitwise fingerprint of a (nested) argument that is not a pool object"""
+    if x is None:
+        return None
+    if isinstance(x, np.ndarray):
+        return ('a', x.shape, str(x.dtype), x.tobytes())
+    if isinstance(x, dict):
+        return ('d', tuple((repr(k), _argfp(v)) for k, v in x.items()))
+    if isinstance(x, (list, tuple)):
+        return ('l', type(x).__name__, tuple(_argfp(v) for v in x))
+    return ('o', repr(x))
+
+
 def _add_data_producers():
     def op_calc_rdm(self, o):
         """RDM calculation / noise estimation on a dataset: arguments must stay untouched (C12)"""
@@ -790,8 +810,25 @@ def _add_data_producers():
             else:
                 noise = None
                 if method in ('mahalanobis', 'crossnobis') and o['flag2']:
-                    noise = np.eye(obj.n_channel) * 2.0
-                calc_rdm(obj, method=method, descriptor='cond', cv_descriptor=cvd, noise=noise)
+                    nk = o['a'][3] % 4
+                    folds = len(set(normlist(obj.obs_descriptors['run']))) if cvd else 0
+                    if nk == 0 or method == 'mahalanobis' or folds < 2:
+                        noise = _prec(obj.n_channel, o['a'][4]) if nk else np.eye(obj.n_channel) * 2.0
+                    elif nk == 1:
+                        noise = [_prec(obj.n_channel, o['a'][4] + f) for f in range(folds)]          # one precision per fold
+                    elif nk == 2:
+                        noise = np.array([_prec(obj.n_channel, o['a'][4] + f) for f in range(folds)])
+                    else:
+                        noise = {f: _prec(obj.n_channel, o['a'][4] + f) for f in range(folds)}
+                    name += f'+noise{nk}'
+                watched = _argfp(noise)
+                try:
+                    calc_rdm(obj, method=method, descriptor='cond', cv_descriptor=cvd, noise=noise)
+                finally:
+                    if _argfp(noise) != watched:
+                        self.pool.report('C12', 'bystander', f'bystander:{name.split("+")[0]}:argument:noise',
+                                         f'{name}: the noise argument ({type(noise).__name__}) handed to calc_rdm was changed by the call')
+                    self.ctx.probe('noise_argument_watched')
         except (ImportError, NameError) as e:
             raise HarnessError(f'producer {name}: {e!r}')
         except Exception:
